@@ -323,6 +323,7 @@ func (n *RdrNode) NeedCallback(mNode schema.MatchedNode, callback schema.Callbac
 					if err != nil {
 						logger.Errorf("Unable to parse and extract name from the metadata packet: %v\n", err)
 						lastResult.Status = ndn.InterestResultError
+						break // metadata is nil
 					}
 					fullName = metadata.Name
 				}
